@@ -3,6 +3,8 @@ EXTENDS Overlay
 (* quick: 5 keys with every order/prefix relation that matters to the merge *)
 KeysQ == { <<>>, <<0>>, <<0, 0>>, <<0, 1>>, <<1>> }
 KeysS == { <<>>, <<0>>, <<1>> }
+(* long: two keys, six operations - a key committed to the base, then overwritten and removed in a cache, then committed *)
+KeysL == { <<>>, <<0>> }
 KeysT == { <<>>, <<0>>, <<0, 0>>, <<0, 2>>, <<1>>, <<2>>, <<2, 2>> }
 Vals1 == { <<7>> }
 Vals2 == { <<7>>, <<8>> }
